@@ -598,6 +598,15 @@ func (e fixEvaluator) SumLow(op0, op1, opOut *rlwe.Ciphertext) {
 	*opOut.MetaData = *op0.MetaData
 }
 
+// NILELEMS control: the scratch vector is allocated but its elements never are
+type scratch struct{ buf []*big.Int }
+
+func newScratch(n int) *scratch {
+	return &scratch{buf: make([]*big.Int, n)}
+}
+
+func (s *scratch) set(i int, v int64) { s.buf[i].SetInt64(v) }
+
 func rnsBad(r *ring.Ring, v uint64) (rns ring.RNSScalar) {
 	rns = make(ring.RNSScalar, r.Level()+1)
 	for i := range rns {
